@@ -1158,7 +1158,65 @@ def r65(ctx, repo):
 # ----------------------------------------------------------------------
 # R6.6
 
+def r66_identifier(ctx, repo):
+    """The identifier of a plugin recipe is what `AncillaryFeature.hash`
+    knows about the recipe itself (F06h): on *every* path to the digest it
+    must cover the recipe's code (file bytes or byte code), its feature
+    name, its version and its required features – a recipe registered
+    again under the same name with another version must get another
+    identifier, whether it comes from a file or from a dictionary."""
+    from ..cfg import CFG
+    rel = "dclab/rtdc_dataset/feat_anc_plugin/plugin_feature.py"
+    proc = inline_helpers(repo, rel, repo.func(
+        rel, "PlugInFeature._process_plugin_info"))
+    digests = [n for n in walk(proc) if isinstance(n, ast.Call)
+               and last_attr(n) == "hexdigest"]
+    if len(digests) != 1:
+        raise AnalysisError("_process_plugin_info: identifier digest not "
+                            "found")
+    st = digests[0]
+    while not isinstance(st, ast.stmt):
+        st = st.parent
+    cfg = CFG(proc)
+    tids = cfg.ids_of(st)
+    if not tids:
+        raise AnalysisError("_process_plugin_info: digest not in the CFG")
+
+    def feeds(tokens):
+        def pred(n):
+            if n.ast is None or n.ast is st:
+                return False
+            node = n.ast
+            if isinstance(node, (ast.For, ast.While)):
+                node = node.iter if isinstance(node, ast.For) else node.test
+            elif isinstance(node, ast.If):
+                return False
+            elif not any(isinstance(c, ast.Call) and last_attr(c) == "update"
+                         for c in ast.walk(node)):
+                return False
+            t = txt(node)
+            return any(tok in t for tok in tokens)
+        return pred
+    for what, tokens in (
+            ("code of the recipe (file bytes / byte code)",
+             ("read_bytes", "co_code", "__code__", "getsource")),
+            ("feature name", ("feature_name", "feature name")),
+            ("version", ("'version'", '"version"')),
+            ("required features", ("features required",))):
+        ok = all(cfg.always_before(t, feeds(tokens)) for t in tids)
+        ctx.ob("R6.6", ok,
+               f"the recipe identifier digests the {what} on every path"
+               if ok else
+               f"some path to `{short(st, 40)}` does not feed the {what} "
+               "into the identifier: two recipes that differ in it share "
+               "one identifier, and a dataset that cached the data of the "
+               "first keeps serving them after the second was registered "
+               "under the same name (the recipe hash cannot tell them "
+               "apart)", node=st, label=f"identifier covers {what}")
+
+
 def r66(ctx, repo):
+    r66_identifier(ctx, repo)
     rel = "dclab/rtdc_dataset/feat_anc_plugin/plugin_feature.py"
     init = repo.func(rel, "PlugInFeature.__init__")
     sup = [c for c in find_calls(init, attr="__init__")]
